@@ -64,6 +64,21 @@ def caches(ctx):
     _own(ctx)
     for r in (C14.rule_K2, C14.rule_K3, C14.rule_K4, C14.rule_K6):
         imported(ctx, r)
+    # a hand-rolled memo table (module-level dict a function fills and reads back) keyed on fewer inputs than the
+    # function has serves a later call the earlier result (C14.K7)
+    if "K7" not in ctx.rule_min:
+        imported(ctx, C14.rule_K7)
+
+
+def no_call_state(ctx):
+    """Nothing survives from one call to the next through a mutable default argument or a hand-rolled memo table keyed on
+    less than the function reads (C14.K7 / K8)."""
+    from . import C14
+
+    _own(ctx)
+    for rid, r in (("K7", C14.rule_K7), ("K8", C14.rule_K8)):
+        if rid not in ctx.rule_min:
+            imported(ctx, r)
 
 
 def proposal_chains(ctx):
